@@ -245,7 +245,7 @@ Definition step_record (sps : list stepreq) (fs gs : list bytes) (lead : nat) (s
   end.
 
 (* end of stream: every logged (not yet emitted) record, in arrival order: shift its group's window once, then (fix:
-   b0d126048) up to [lead] more times while the window centre is still empty -- a group shorter than the look-ahead has
+   1cf092ed2) up to [lead] more times while the window centre is still empty -- a group shorter than the look-ahead has
    not reached the centre yet --, run the steppers as directed by THAT record's fields, emit the window centre *)
 Fixpoint shift_to_center (n : nat) (win : list (option wrec)) : list (option wrec) :=
   match n with
